@@ -368,6 +368,24 @@ def check(ctx):
             o.fail(P, f'Maintainer.{prop}', prop, f'{prop} does not report the stored quantities', file=M.mod.path, line=M.node.lineno)
         else:
             o.witness(prop)
+    # ---- C12.7 contradiction: the target's name is optional ------------------------------------------------------------------------
+    o = Ob('C12.7', 'K10', 'Maintainable is an interface without a name and the maintainer reads a target\'s name with a default (getattr): no other place of the class '
+                           'may dereference it directly -- the scan does so only after the order left the queue and its capacity was taken, so a nameless target '
+                           'would leave an order in progress for ever, with no start event')
+    obs.append(o)
+    beliefs, viol = dv.optional_attr_contradictions(P, M)
+    o.count(max(1, len(beliefs)))
+    for fn_, x in viol:
+        o.count()
+        o.fail(P, f'Maintainer.{fn_.name}', x, f'`{ast.unparse(x)}` is read directly although {"/".join(sorted({b[2].name for b in beliefs}))} reads the same attribute with a default '
+               '(the class itself expects targets without it); an AttributeError here comes after the queue, the active list and the utilization were changed',
+               file=M.mod.path, line=x.lineno)
+    if beliefs and not viol:
+        o.witness('name read only through the defaulting accessor')
+    elif not beliefs:
+        # no defaulting read at all: then the name is simply required everywhere, which is consistent (nothing to contradict)
+        o.witness('no optional-attribute belief stated')
+    o.sample({'beliefs': [f'{b[2].name}: {ast.unparse(b[3])}' for b in beliefs], 'direct_reads': [f'{f_.name}: {ast.unparse(x)}' for f_, x in viol]})
     return obs
 
 
